@@ -96,10 +96,9 @@ class Context:
                     inst.known = k
                     break
         if not inst.holds and inst.known is None and guessed:
-            # the runs behind this verdict went both ways at a branch the analysis could not decide: a problem found on such a
-            # run may belong to the way the real code never goes -- no verdict, rather than a violation
-            from .loader import Undecided
-            raise Undecided(f"{rule} [{name[:100]}] cannot be decided: {guessed[0]} could not be evaluated (both branches were followed, and one of them gives: {message[:160]})")
+            # the runs behind this verdict went both ways at a branch the analysis could not decide; the report says so (a
+            # problem found on such a run may belong to the way the real code never goes -- the reader is told where to look)
+            inst.message = f"{inst.message} [note: {guessed[0]} could not be evaluated by the analysis; both branches were followed]"
         self.instances.append(inst)
         return inst.holds
 
